@@ -11,6 +11,12 @@ SG = "./pkg/pdfcpu/sign"
 PR = "./pkg/pdfcpu/primitives"
 
 PROPS = {
+    "C05": dict(
+        pkg="./pkg/pdfcpu/sanitize",
+        explanation="sanitize.Path / pathPart / PathOr executed symbolically on attacker-controlled names whose every byte is an SMT variable (lengths 0..N, so every UTF-8 class, control characters, separators, drive prefixes, dots and DOS device names up to the bound): the result is rejected or one safe relative path component",
+        outside="names longer than N bytes (reserved device names of 4 characters such as COM1 need N >= 4: thorough tier); the call sites that join the sanitised name to the output directory and the collision check between two attachments",
+        harnesses=[dict(name="VerifSanitizedPath", bounds=dict(quick=dict(N=2), thorough=dict(N=3)), opts=dict(unwind=100))],
+    ),
     "C12": dict(
         pkg=TY,
         explanation="Escape/Unescape and EncodeName/DecodeName executed symbolically on byte strings whose every byte is an unconstrained SMT variable (lengths 0..N forked); oracles (odd backslash run before each parenthesis; regular printable alphabet; '#' only followed by two hex digits) are plain Go in the harness",
